@@ -6578,91 +6578,15 @@ int64_t ExpressionEvaluator::evaluate_function_call_impl(const ASTNode *node) {
             // v0.13.1: メソッド内でメソッドを呼んだ場合、parent
             // scopeのselfも更新する
             // これにより、vec.push()内でself.reserve()を呼んだ後、push()内のselfが更新される
+            // The receiver must be that very `self` variable: another object
+            // of the same struct type (other.inc(), self.next->visit()) must
+            // not overwrite the caller's self.
             if (has_receiver && !receiver_name.empty()) {
-                auto &scope_stack = interpreter_.get_scope_stack();
-                // 現在のスコープ(呼ばれたメソッドのスコープ)の1つ上を確認
-                if (scope_stack.size() >= 2) {
-                    auto &parent_scope = scope_stack[scope_stack.size() - 2];
-                    // parent
-                    // scopeにselfが存在し、同じreceiverを参照している場合
-                    if (parent_scope.variables.find("self") !=
-                        parent_scope.variables.end()) {
-                        Variable &parent_self = parent_scope.variables["self"];
-                        // receiverと同じstruct_type_nameを持つ場合、更新する
-                        Variable *receiver_var_for_parent = nullptr;
-                        if (used_resolution_ptr && dereferenced_struct_ptr) {
-                            receiver_var_for_parent = dereferenced_struct_ptr;
-                        } else {
-                            receiver_var_for_parent =
-                                interpreter_.find_variable(receiver_name);
-                        }
-
-                        if (receiver_var_for_parent &&
-                            parent_self.struct_type_name ==
-                                receiver_var_for_parent->struct_type_name) {
-                            // parent scopeのselfを更新
-                            parent_self.struct_members =
-                                receiver_var_for_parent->struct_members;
-                            parent_self.value = receiver_var_for_parent->value;
-                            parent_self.str_value =
-                                receiver_var_for_parent->str_value;
-                            parent_self.float_value =
-                                receiver_var_for_parent->float_value;
-                            parent_self.double_value =
-                                receiver_var_for_parent->double_value;
-                            parent_self.quad_value =
-                                receiver_var_for_parent->quad_value;
-                            parent_self.big_value =
-                                receiver_var_for_parent->big_value;
-
-                            // parent scopeのself.member変数も更新
-                            std::function<void(const std::string &,
-                                               const Variable &)>
-                                refresh_parent_nested =
-                                    [&](const std::string &base_name,
-                                        const Variable &struct_value) {
-                                        if (!struct_value.is_struct ||
-                                            struct_value.is_array) {
-                                            return;
-                                        }
-                                        for (const auto &nested_pair :
-                                             struct_value.struct_members) {
-                                            std::string nested_name =
-                                                base_name + "." +
-                                                nested_pair.first;
-                                            auto nested_it =
-                                                parent_scope.variables.find(
-                                                    nested_name);
-                                            if (nested_it ==
-                                                parent_scope.variables.end()) {
-                                                continue;
-                                            }
-                                            nested_it->second =
-                                                nested_pair.second;
-                                            refresh_parent_nested(
-                                                nested_name,
-                                                nested_pair.second);
-                                        }
-                                    };
-                            for (const auto &member_pair :
-                                 parent_self.struct_members) {
-                                const std::string &member_name =
-                                    member_pair.first;
-                                const Variable &member_var = member_pair.second;
-                                std::string var_name = "self." + member_name;
-
-                                if (parent_scope.variables.find(var_name) !=
-                                    parent_scope.variables.end()) {
-                                    parent_scope.variables[var_name] =
-                                        member_var;
-                                    // ネストした構造体メンバーの個別変数
-                                    // (self.in.a など) も更新
-                                    refresh_parent_nested(var_name, member_var);
-                                }
-                            }
-                        }
-                    }
-                }
+                refresh_caller_self_members(
+                    interpreter_,
+                    (used_resolution_ptr && dereferenced_struct_ptr)
+                        ? dereferenced_struct_ptr
+                        : interpreter_.find_variable(receiver_name));
             }
 
             // 配列参照のコピーバック処理
